@@ -17,9 +17,9 @@ cls(
     callbacks={"send": Callback(name="send", effect="yields", record="sent")},
     inv=[
         # I1: every stream that has a send buffer is in the priority tree
-        ("H2.inv.I1", "forall_int('k', implies(in_map(self.stream_buffers, k), sel(self.priority.has, k)))", "C04,C09"),
+        ("H2.inv.I1", "forall_int('k', implies(in_map(self.stream_buffers, k), sel(self.priority.has, k)))", "C04,C09,C02"),
         # I2: every schedulable (unblocked) stream has a send buffer
-        ("H2.inv.I2", "forall_int('k', implies(k != 0 and sel(self.priority.has, k) and sel(self.priority.active, k), in_map(self.stream_buffers, k)))", "C04,C09"),
+        ("H2.inv.I2", "forall_int('k', implies(k != 0 and sel(self.priority.has, k) and sel(self.priority.active, k), in_map(self.stream_buffers, k)))", "C04,C09,C02"),
         ("H2.inv.no-zero", "not in_map(self.stream_buffers, 0)", "C04"),
         ("H2.inv.has_data-clearable", "not self.has_data.g_sticky", "C09"),
     ],
@@ -159,6 +159,11 @@ fn(H2 + "._handle_events", params={"events": "obj pyvc:H2Events"}, task="reader"
        # _send_data closes the buffer), so the stream must be schedulable and the send task woken
        ("C08.release.on-reset", "implies(isinstance(event, h2.events.StreamReset) and in_map(self.stream_buffers, event.stream_id), "
         "sel(self.priority.active, event.stream_id) and self.has_data.flag)", "C08,C09"),
+       # C08 / C09 "whenever the pressure abates ... every waiting send returns": credit also arrives
+       # as a changed SETTINGS_INITIAL_WINDOW_SIZE (RFC 9113 6.9.2: the difference is added to every
+       # stream window): every such change makes the blocked streams schedulable again
+       ("C09.wake.settings", "implies(isinstance(event, h2.events.RemoteSettingsChanged) and (h2.settings.SettingCodes.INITIAL_WINDOW_SIZE in event.changed_settings), "
+        "count_calls('H2Protocol._window_updated') >= 1)", "C09,C08,C02"),
        # C07 (HTTP/2): every request that is taken on reports the connection busy, whatever the
        # other streams are doing (the server stops the keep-alive timer on that report)
        ("C07.h2.busy", "implies(isinstance(event, h2.events.RequestReceived) and count_calls('H2Protocol._create_stream') >= 1, "
